@@ -106,6 +106,98 @@ def reset_rule(ctx, P, R, side):
     return total
 
 
+def _script_name_by_interpretation(P, g, genv):
+    """second way to the same verdict when the match test is not written inline (a predicate helper, temporaries): one turn of the
+    script-name loop is interpreted (E3) for a grid of (path, script name) pairs - the path is cut, by the length of the name, exactly
+    when the name is the path or a prefix of it that ends at a '/' - and the surrounding plumbing is checked through definitions"""
+    from vlib import absint as A
+    pi, sn = genv('PATH_INFO'), genv('SCRIPT_NAME')
+    ud = [i for i in g.calls() if g.bcallee(i) == 'cppcms::util::urldecode']
+    if not (len(pi) == 1 and len(sn) == 1 and len(ud) == 1):
+        return False
+    a = g.args(ud[0])
+    pv = g.ref_of(a[0])
+    if pv is None or pv not in q.deep_refs(g, a[1]) or not any(g.callee(c) == 'strlen' and g.ref_of(g.args(c)[0]) == pv for c in q.expr_calls_deep(g, a[1])):
+        return False
+    piw = q.field_writes(g, 'http::env_path_info_')
+    if not (len(piw) == 1 and ud[0] in set(g.walk(piw[0])) and model.strip_targs(g.ref_of(g.args(pi[0])[1]) or '').endswith('http::env_path_info_') and q.before(g, piw[0], pi[0])):
+        return False
+    cut = [w for w in q.writes_to(g, pv) if any(g.contains(L, w) for L in q.loops(g))]
+    lps = [L for L in q.loops(g) if any(g.contains(L, w) for w in cut)]
+    if not (len(cut) == 1 and len(lps) == 1):
+        return False
+    L = lps[0]
+    cl_ = q.counting_loop(g, L)
+    if not (cl_ is not None and cl_['start'] == 0 and cl_['step'] == 1 and cl_['op'] == '<' and any(q.short_of(g.bcallee(c) or '') == 'size' for c in g.calls(cl_['bound']))):
+        return False
+    snw = q.field_writes(g, 'http::env_script_name_')
+    leaves = [j for j in g.walk(g.N(L)['body']) if g.N(j)['k'] == 'BreakStmt']
+    if not (len(snw) == 1 and g.contains(L, snw[0]) and g.contains(L, sn[0]) and bool(leaves) and q.always_after(g, cut[0], leaves + g.returns())):
+        return False
+    body = g.N(L)['body']
+    inner = set(d['ref'] for i in g.walk(body) if g.N(i)['k'] == 'DeclStmt' for d in g.N(i)['decls'])
+    outer = set(x for x in g.subtree_refs(body) if x.startswith(('v:', 'p:')) and x not in inner)
+    flds = set(x for x in g.subtree_refs(body) if x.startswith('f:'))
+
+    class _Name(object):
+        pass
+    for name in ('/app', '/a', '/', '/app/sub'):
+        for path in ('', '/', '/a', '/ap', '/app', '/app/', '/app/x', '/apple', '/apple/x', '/app2', '/app.php', '/a/app', '/app/sub', '/app/sub/z', '/app/subway', 'app'):
+            want = path == name or path.startswith(name + '/')
+            parr = A.Arr([A.AV.const(ord(c)) for c in path] + [A.AV.const(0)], 'path')
+            narr = A.Arr([A.AV.const(ord(c)) for c in name] + [A.AV.const(0)], 'name')
+            tok = _Name()
+            stored = []
+
+            def h_size(it, fn_, i_, env_):
+                return A.AV.const(len(name))
+
+            def h_cstr(it, fn_, i_, env_):
+                return A.PV(narr, 0)
+
+            def h_index(it, fn_, i_, env_):
+                return tok
+
+            def h_add(it, fn_, i_, env_):
+                stored.append(q.short_of(fn_.callee(i_) or ''))
+                return A.PV(narr, 0)
+            hooks = {'std::basic_string::size': h_size, 'std::basic_string::length': h_size, 'std::basic_string::c_str': h_cstr, 'std::basic_string::data': h_cstr, 'std::vector::operator[]': h_index}
+            for c in g.calls(body):
+                cn = model.strip_targs(g.N(c).get('cn') or '')
+                if cn and cn not in hooks and cn not in ('memcmp', 'strlen', 'strncmp') and (P.fns.get(g.N(c).get('callee')) is None or P.fns.get(g.N(c).get('callee')).file != g.file):
+                    hooks[cn] = h_add
+            it = A.Interp(P, [], hooks=hooks)
+            it.fields = dict((x, A.Cell(A.AV.const(0))) for x in flds)
+            env = {}
+            for x in outer:
+                if x == pv:
+                    env[x] = A.Cell(A.PV(parr, 0))
+                elif x == cl_['var']:
+                    env[x] = A.Cell(A.AV.const(0))
+                elif any(v_ is not None and any(g.callee(c) == 'strlen' and g.ref_of(g.args(c)[0]) == pv for c in g.calls(v_)) for (d_, v_) in g.defs_of_var(x)):
+                    env[x] = A.Cell(A.AV.const(len(path)))
+                else:
+                    tx = ''
+                    for i_ in g.all_nodes():
+                        if g.N(i_)['k'] == 'DeclStmt':
+                            for d_ in g.N(i_)['decls']:
+                                if d_['ref'] == x:
+                                    tx = g.types[d_['t']] or ''
+                    env[x] = A.Cell(A.Arr([tok], 'names')) if 'vector' in tx else A.Cell(tok)
+            try:
+                try:
+                    it.exec_stmt(g, body, env)
+                except (A._Break, A._Continue):
+                    pass
+            except A.OutOfBounds:
+                return False
+            p_after = env[pv].v
+            moved = p_after.off if isinstance(p_after, A.PV) else None
+            if moved != (len(name) if want else 0):
+                return False
+    return True
+
+
 def run(ctx):
     ctx.explanation = ('Keep-alive hygiene: the set of fields written while a request is processed is computed from the code (both reusable front-ends and the connection base class) and each must be written by the '
                        'request-boundary functions (keep_alive / reset_all / async_read_headers closure) or be on a one-symbol allow-list with a reason. Read-ahead cursors: linear bounds of the FastCGI record readers and the '
@@ -228,7 +320,34 @@ def run(ctx):
     # the final size of the cache path is set after the copy on every path that copied
     rb = [i for i in nb.calls() if nb.bcallee(i) == FC + '::read_bytes']
     ctx.check(len(rb) == 1 and len(ra_nb) == 2 and q.before(nb, ra_nb[0][0], rb[0]) and q.always_after(nb, rb[0], [ra_nb[-1][0]]), R5, 'non_blocking_read_record:grow-copy-trim', 'record is not copied into freshly grown space and trimmed afterwards', nb.where)
-    ctx.floor(R5, 2)
+    # socket path: the bytes asked from the socket are content + padding of the record, and the read is skipped only when that sum is 0
+    So = q.symb_with_locals(ohr)
+    rd_ = [i for i in ohr.calls() if q.short_of(ohr.callee(i) or '') == 'async_read_from_socket']
+    ok = len(rd_) == 1
+    if ok:
+        amount = So.lin(ohr.args(rd_[0])[1])
+        cl_, pl_ = atoms_named(amount, 'fcgi_header::content_length'), atoms_named(amount, 'fcgi_header::padding_length')
+        ok = len(cl_) == 1 and len(pl_) == 1 and (amount - Lin.atom(cl_[0]) - Lin.atom(pl_[0])).key() == Lin.const(0).key()
+        if ok:
+            def zero_amount(atom, pol):
+                n_ = ohr.N(atom)
+                if n_['k'] != 'BinaryOperator' or n_.get('op') not in ('==', '!='):
+                    return False
+                for x_, y_ in ((n_['ch'][0], n_['ch'][1]), (n_['ch'][1], n_['ch'][0])):
+                    if ohr.const_value(y_) == 0:
+                        try:
+                            if (So.lin(x_) - amount).key() == Lin.const(0).key():
+                                return pol is (n_['op'] == '==')
+                        except Exception:
+                            return False
+                return False
+            g_zero = ohr.gate_edges(zero_amount)
+            hp_, ep_ = q.param_by_index(ohr, 2), q.param_by_index(ohr, 0)
+            early = [i for i in ohr.calls() if ohr.N(i)['k'] == 'CXXOperatorCallExpr' and ohr.N(i).get('op') == '()' and ohr.ref_of(ohr.N(i)['ch'][1]) == hp_ and ep_ not in ohr.subtree_refs(i)]
+            ok = bool(g_zero) and bool(early) and all(ohr.only_through(i, g_zero) for i in early)
+    ctx.check(ok, R5, 'on_header_read:reads-content-plus-padding:skips-the-read-only-when-both-are-0', 'the socket path does not consume content_length + padding_length bytes of every record (a padded empty record leaves its '
+              'padding in the stream and the next record header is read from a shifted position)', ohr.where)
+    ctx.floor(R5, 3)
     ctx.assume('cursor invariants at member-function entry: fastcgi 0 <= cache_start_ <= cache_end_ <= cache_.size(), body_ptr_ <= body_.size(); http input_body_ptr_ <= input_body_.size(); '
                'an asynchronous read completes with at most the number of bytes of the buffer it was given')
     ctx.floor(R2, 12)
@@ -686,6 +805,8 @@ def _http_decomposition(ctx, P):
                 ok = ok and cl_ is not None and cl_['start'] == 0 and cl_['step'] == 1 and cl_['op'] == '<' and any(q.short_of(g.bcallee(c) or '') == 'size' for c in g.calls(cl_['bound']))
                 leaves = [j for j in g.walk(g.N(L)['body']) if g.N(j)['k'] == 'BreakStmt']
                 ok = ok and bool(leaves) and q.always_after(g, cut[0], leaves + g.returns())
+    if not ok:
+        ok = _script_name_by_interpretation(P, g, genv)
     ctx.check(ok, R6, 'process_request:script-name-cut-at-a-component-boundary:PATH_INFO-is-the-decoded-rest', 'SCRIPT_NAME / PATH_INFO are not the matched script name and the percent-decoded remainder of the path', g.where)
     # the path is the whole URI when there is no "?"
     if len(sc) == 1 and len(ud) == 1:
